@@ -387,6 +387,105 @@ fn main() {
         );
     }
 
+    // ------------------------------------------------------------------ what the host's callbacks see
+    // Name resolution is one rule for the template AND for the functions / filters / tests the host
+    // registers: `State::get(name)` inside a callback answers what `{{ name }}` prints at the same
+    // spot - also in an included template, whose names resolve through the includer's loops and
+    // assignments before the render context and the global context. Every program prints
+    // `[peek(x)=x]` pairs; the two sides of every pair must be equal. (Seeded change C03-14 gave
+    // `State::get` a fast path that skipped the includer's scopes.)
+    {
+        fn peek(kwargs: tera::Kwargs, state: &tera::State) -> tera::TeraResult<tera::Value> {
+            let name = kwargs.must_get::<String>("name")?;
+            match state.get::<tera::Value>(&name)? {
+                Some(v) => Ok(v),
+                None => Err(tera::Error::message(format!("`{name}` is not defined for the callback"))),
+            }
+        }
+        // (name, what the includer does around the include tag; INC = the include)
+        let binders: [(&str, &str); 8] = [
+            ("context-only", "INC"),
+            ("includer-set", "{% set x = \"s\" %}INC"),
+            ("includer-loop-variable", "{% for x in [1, 2] %}INC{% endfor %}"),
+            ("includer-set-in-loop", "{% for i in [1, 2] %}{% set x = i %}INC{% endfor %}"),
+            ("includer-set_global-in-loop", "{% for i in [1, 2] %}{% set_global x = i %}{% endfor %}INC"),
+            ("includer-set-block", "{% set x %}b{% endset %}INC"),
+            ("includer-key-value-loop", "{% for x, v in {\"k\": 1} %}INC{% endfor %}"),
+            ("includer-loop-then-restored", "{% for x in [1] %}{% endfor %}INC"),
+        ];
+        let leaves: [(&str, &str); 4] = [
+            ("plain", "[{{ peek(name=\"x\") }}={{ x }}]"),
+            ("after-own-set", "{% set y = 1 %}[{{ peek(name=\"x\") }}={{ x }}]"),
+            ("inside-own-loop", "{% for q in [1] %}[{{ peek(name=\"x\") }}={{ x }}]{% endfor %}"),
+            ("own-set-of-x", "[{{ peek(name=\"x\") }}={{ x }}]{% set x = \"own\" %}[{{ peek(name=\"x\") }}={{ x }}]"),
+        ];
+        let placements: [(&str, bool, bool); 3] = [("context", true, false), ("global-context", false, true), ("both", true, true)];
+        let n_items = (binders.len() * leaves.len() * 3) as u64;
+        run.family(
+            Family::new(
+                "host-callback-lookups",
+                n_items,
+                "8 ways the includer binds x (not at all, set, loop variable, set in a loop, set_global in a loop, set block, key of a key-value loop, a loop that ended) x 4 included bodies x include depth 0..=2 x 3 placements of x (render context, global context, both): every `[peek(x)=x]` pair printed by the leaf has equal sides, peek being a host function that returns State::get(x)",
+            ),
+            |item, acc: &mut Acc| {
+                let i = item as usize;
+                let (bname, binder) = binders[i % binders.len()];
+                let (lname, leaf) = leaves[(i / binders.len()) % leaves.len()];
+                let depth = i / binders.len() / leaves.len();
+                let mut tpls: Vec<(String, String)> = vec![("t0".into(), leaf.to_string())];
+                for k in 1..=depth {
+                    tpls.push((format!("t{k}"), format!("<{{% include \"t{}\" %}}>", k - 1)));
+                }
+                // depth 0: the binder wraps the leaf's own text
+                let inc = if depth == 0 { leaf.to_string() } else { format!("{{% include \"t{}\" %}}", depth) };
+                let root = binder.replace("INC", &inc);
+                if depth == 0 {
+                    tpls.clear();
+                }
+                tpls.push(("root".into(), root));
+                for (pname, in_ctx, in_global) in placements {
+                    let mut t = tera::Tera::default();
+                    t.register_function("peek", peek);
+                    if in_global {
+                        t.global_context().insert("x", "g");
+                    }
+                    let case = || json!({"templates": tpls.iter().map(|(n, s)| json!({"name": n, "source": s})).collect::<Vec<_>>(), "render": "root", "x_in": pname, "function": "peek(name) = State::get(name)"});
+                    let added = engine::add_templates(&mut t, &tpls);
+                    if !added.is_ok() {
+                        acc.violation("host-callback-lookups:refused".to_string(), format!("registration failed: {}", added.show()), case);
+                        continue;
+                    }
+                    let mut ctx = tera::Context::new();
+                    if in_ctx {
+                        ctx.insert("x", "c");
+                    }
+                    let out = engine::render(&t, "root", &ctx);
+                    let pairs_equal = |s: &str| {
+                        let mut n = 0;
+                        for part in s.split('[').skip(1) {
+                            let Some((pair, _)) = part.split_once(']') else { return None };
+                            let Some((l, r)) = pair.split_once('=') else { return None };
+                            if l != r {
+                                return None;
+                            }
+                            n += 1;
+                        }
+                        (n > 0).then_some(n)
+                    };
+                    match &out {
+                        Out::Ok(s) if pairs_equal(s).is_some() => {}
+                        _ => acc.violation(
+                            format!("host-callback-lookups:{bname}:{lname}"),
+                            format!("include depth {depth}, x in the {pname}: rendered {}; the sides of a pair differ (or the render failed)", out.show()),
+                            case,
+                        ),
+                    }
+                    acc.case(depth > 0, out.class());
+                }
+            },
+        );
+    }
+
     // ------------------------------------------------------------------ loop.* read inside a comprehension
     // The documentation says `loop.*` cannot be used in a list comprehension and leaves open what
     // happens when the comprehension stands in a `for` body (the engine answers with the enclosing
